@@ -31,7 +31,12 @@ use std::sync::Arc;
 use vm_memory::mmap::MmapRegionBuilder;
 use vm_memory::{FileOffset, GuestAddress, GuestMemory, GuestMemoryMmap, GuestMemoryRegion, GuestRegionMmap, MmapRegion};
 
-pub const SUITES_IMPL: &[Suite] = &[Suite { name: "C12", gen, exec }];
+// the Xen suite C12xen lives in c12_xen.rs (xen builds only); this is its empty stand-in in the standard build
+fn nogen(_: &mut Rng, _: Tier, _: &mut dyn FnMut(Vec<Tok>)) {}
+fn noexec(_: &[Tok]) -> Vec<Tok> {
+    vec![Tok::N(0xbad0bad)]
+}
+pub const SUITES_IMPL: &[Suite] = &[Suite { name: "C12", gen, exec }, Suite { name: "C12xen", gen: nogen, exec: noexec }];
 
 type M = GuestMemoryMmap<()>;
 type R = GuestRegionMmap<()>;
